@@ -300,9 +300,12 @@ BASH = ["bash", "--norc", "--noprofile"]
 ENV = {"PATH": "/usr/bin:/bin", "LC_ALL": "C.UTF-8", "HOME": "/nonexistent"}
 
 
-def run_bash(script, timeout=120):
+RUN_DIR = None   # scratch directory the bash helpers run in (half-parsed bodies may create files)
+
+
+def run_bash(script, timeout=300):
     p = subprocess.run(BASH + ["-c", script], stdin=subprocess.DEVNULL, stdout=subprocess.PIPE, stderr=subprocess.PIPE, env=ENV,
-                       timeout=timeout, cwd="/")
+                       timeout=timeout, cwd=RUN_DIR or tempfile.gettempdir())
     return p.returncode, p.stdout, p.stderr
 
 
@@ -393,7 +396,10 @@ RAW = [
 
 def run(ctx):
     rng = ctx.rng
+    global RUN_DIR
     scratch = tempfile.mkdtemp(prefix="c34-")
+    RUN_DIR = os.path.join(scratch, "cwd")
+    os.makedirs(RUN_DIR)
     try:
         cases = [dict(c) for c in CORPUS]
         for _ in range(ctx.n(150, 5000)):
